@@ -1519,7 +1519,7 @@ package gocql
 // stream goes back to the allocator now, not earlier; a response nobody waits for is discarded.
 //@ func (c *Conn) recv
 //@   props C01 C06
-//@   count_calls readFrame discardFrame releaseStream
+//@   count_calls readFrame discardFrame releaseStream Done
 //@   requires c.conn != nil && c.r != nil && streams_wf(c.streams) && c.logger != nil && c.session != nil && ctx != nil
 //@   requires !c.closed ==> c.calls != nil && calls_wf(c)
 //@   assume ErrConnectionClosed != nil
@@ -1527,6 +1527,10 @@ package gocql
 //@   before[C01] releaseStream: arg0 == c && arg1 == call && call == old(c.calls[head.stream]) && old(haskey(c.calls, head.stream)) && sent(call.resp) == 0
 //@   ensures (!c.closed ==> calls_wf(c)) && c.streams == old(c.streams) && releaseStream_calls <= 1 && c.closed == old(c.closed)
 //@   at_return[C01] call != nil ==> !haskey(c.calls, head.stream) && map_unchanged_except(c.calls, head.stream) && call == old(c.calls[head.stream])
+//@   before_send[C06] alternatives >= 2
+// a call's timeout channel is made by exec and handed to nobody: it is not the context's Done channel
+//@   assume_after Done: Done_ret0 != call.timeout
+//@   at_return[C06] call != nil && selrecvd(call.timeout) == 1 ==> releaseStream_calls == 1
 //@   at_return[C01] discardFrame_calls == 1 ==> !old(haskey(c.calls, head.stream)) || old(c.calls[head.stream]) == nil
 
 //@ func (recv ConnErrorHandler) HandleError
@@ -1569,6 +1573,8 @@ package gocql
 //@   requires c != nil ==> conn_ok(c)
 //@   ensures c != nil ==> conn_ok(c)
 //@   before_send[C01] ch == req.resp && val.err == err && err != nil && val.framer == nil
+// the error is offered, never forced on a caller that may have left: the send has an alternative
+//@   before_send[C06] alternatives >= 1
 //@   ensures c != nil ==> c.closed && c.streams == old(c.streams) && c.cfg == old(c.cfg) && c.compressor == old(c.compressor) && c.session == old(c.session) && c.host == old(c.host) && c.version == old(c.version) && c.logger == old(c.logger)
 //@   ensures c != nil && !old(c.closed) && err != nil ==> c.calls == nil
 //@   preserves_types IDGenerator framer startupCoordinator preparedLRU Cache inflightPrepare Query Session List Element HostInfo
@@ -1598,7 +1604,7 @@ package gocql
 //@   before[C01] addCall: arg0 == c && GetStream_calls == 1 && GetStream_ret1 && arg1.streamID == GetStream_ret0 && fresh(arg1) && fresh(arg1.resp) && fresh(arg1.timeout)
 //@   before[C01] buildFrame: arg1 == GetStream_ret0 && addCall_calls == 1 && addCall_ret0 == nil
 //@   before[C07] writeContext: same(arg1, framer.buf) && buildFrame_calls == 1 && buildFrame_ret0 == nil
-//@   before[C06,C07] releaseStream: arg0 == c && arg1 == call && releaseStream_calls == 1 && (writeContext_calls == 0 || (writeContext_ret1 != nil && writeContext_ret0 == 0) || selrecvd(call.resp) == 1)
+//@   before[C01,C06,C07] releaseStream: arg0 == c && arg1 == call && releaseStream_calls == 1 && (writeContext_calls == 0 || (writeContext_ret1 != nil && writeContext_ret0 == 0) || selrecvd(call.resp) == 1)
 //@   before[C06] closeWithError: writeContext_calls == 1 && writeContext_ret1 != nil
 //@   ensures releaseStream_calls <= 1 && GetStream_calls <= 1 && addCall_calls <= 1 && writeContext_calls <= 1
 //@   ensures result1 == nil ==> result0 != nil && result0.header != nil
@@ -1611,6 +1617,10 @@ package gocql
 //@   at_return[C01] result1 == nil ==> selrecvd(call.resp) == 1 && result0 == resp.framer && releaseStream_calls == 1
 //@   at_return[C06] addCall_calls == 1 && addCall_ret0 == nil ==> closed(call.timeout)
 //@   at_return[C06] writeContext_calls == 1 && writeContext_ret1 == nil && selrecvd(call.resp) == 0 ==> releaseStream_calls == 0
+// ... and it does go back when no response can arrive: the frame could not be built, or the write failed
+// (then either nothing was written and the stream is released, or the connection is closed)
+//@   at_return[C06] buildFrame_calls == 1 && buildFrame_ret0 != nil ==> releaseStream_calls == 1 && writeContext_calls == 0
+//@   at_return[C06] writeContext_calls == 1 && writeContext_ret1 != nil ==> releaseStream_calls + closeWithError_calls == 1
 //@   at_return[C06,C07] writeContext_calls == 1 && writeContext_ret1 != nil && writeContext_ret0 != 0 ==> releaseStream_calls == 0 && closeWithError_calls == 1
 
 // ---------------------------------------------------------------------------
